@@ -841,7 +841,12 @@ class TrigTime:
 
             elif len(match2) == 5:
                 start_str, period_str = match2[1].strip(), match2[2].strip()
-                start, fixed_date_start = await cls.parse_date_time(start_str, 0, now, startup_time)
+                try:
+                    start, fixed_date_start = await cls.parse_date_time(start_str, 0, now, startup_time)
+                except ValueError as exc:
+                    # e.g. 2/29 in a common year: no such instant this year; the other specifications still count
+                    _LOGGER.error("period(%s, ...): %s", start_str, exc)
+                    continue
                 period = parse_time_offset(period_str)
                 period_td = dt.timedelta(seconds=period)
                 if period_td <= dt.timedelta(0):
@@ -859,7 +864,12 @@ class TrigTime:
                             next_time_adj = next_time = this_t
                     continue
                 end_str = match2[3].strip()
-                end, fixed_date_end = await cls.parse_date_time(end_str, 0, now, startup_time)
+                try:
+                    end, fixed_date_end = await cls.parse_date_time(end_str, 0, now, startup_time)
+                except ValueError as exc:
+                    # (the re-parses below name the same dates: they cannot fail once these two have succeeded)
+                    _LOGGER.error("period(..., %s): %s", end_str, exc)
+                    continue
                 if not fixed_date_start and not fixed_date_end:
                     end_offset = 1 if end < start else 0
                     day_dither = [-1, 0, 1]
